@@ -12,7 +12,7 @@ ENGINE_C = "storesim"
 CLAIMED = {
     "C01": (ENGINE_A, "exploration",
             "direct drive of the real nuts::draw (hook H3) with every random decision scripted by the simulator (directions, selection thresholds, momentum); refinement against the index-based reference RefNuts; mirrored re-execution from every state of the trajectory",
-            "Per scenario (target, explicit diagonal / low-rank transformation, Euclidean / ExactNormal, step size, maxdepth 1..6, start, momentum, direction script, threshold script): R1 the real nuts::draw re-run from every state of the final block with the mirrored doubling choices visits the same states with the same depth and stopping reason; R2 with the same thresholds the implementation selects the index the reference selection law selects and draws random numbers in the predicted sequence; R3 the direction is the sign bit of the raw uniform draw (probability exactly 1/2); the tree building equals RefNuts. Stationarity batch: 20000 (thorough 60000) independent particles start from exact i.i.d. draws of the target and make 1/3/6 real transitions with a fixed transformation and step size; per coordinate and for the log density the fraction below the quantiles of an independent reference sample must stay binomial around 5/25/50/75/95% (z statistic, critical 6) - holds for every invariant kernel whatever its mixing speed.",
+            "Per scenario (target, explicit diagonal / low-rank transformation, Euclidean / ExactNormal, step size, maxdepth 1..6, start, momentum, direction script, threshold script): R1 the real nuts::draw re-run from every state of the final block with the mirrored doubling choices visits the same states with the same depth and stopping reason; R2 with the same thresholds the implementation selects the index the reference selection law selects and draws random numbers in the predicted sequence; R3 the direction is the sign bit of the raw uniform draw (probability exactly 1/2); the tree building equals RefNuts. Stationarity batch: 20000 (thorough 60000) independent particles start from exact i.i.d. draws of the target and make 1/3/6 real transitions with a fixed transformation and step size; per coordinate and for the log density the fraction below the quantiles of an independent reference sample must stay binomial around 5/25/50/75/95% (z statistic, critical 6) - holds for every invariant kernel whatever its mixing speed. Batch stationarity_equal_weights: on energy-conserving orbits (ExactNormal on a standard normal, identity transformation; the weight ties the scripted batch has to skip) the draw of a complete tree of depth >= 2 must come from the last accepted doubling and lie in the newer half of that sub-tree with probability 1/2 (z statistic, critical 6).",
             "Detailed balance of the reference kernel itself is the algebra of DESIGN.md Appendix A; numerically it is backed by the stationarity batch (which would also see a bias of the reference law). Divergent trajectories are outside the quantifier; near-ties and numerically unstable orbits (energy spread > 2) are skipped for R1 and counted.",
             "DESIGN.md §5 C01, Appendix A"),
     "C02": (ENGINE_A, "exploration",
@@ -23,7 +23,7 @@ CLAIMED = {
     "C03": (ENGINE_A, "exploration",
             "seeded simulation of single-chain histories with a record of every density evaluation and of every momentum draw (SimMath seam); per-draw membership and consistency oracle",
             "Seeded search over NUTS presets x maxdepth/mindepth/max_energy_error/target_integration_time/kinetic energy x targets (dimension 0 and 1 included) x histories with natural and injected divergences. Every returned draw must be the start or a fault-free evaluated position of its own trajectory (bitwise), its logp/gradient statistics must be what the density returned there, index 0 iff not moved, depth/steps/index bounds, at least one step, maxdepth flag; for Diag NUTS the first evaluated position of the next trajectory must be the reference-leapfrog image of the draw under the reported scales, step size and the observed momentum; for every preset the start state of each trajectory must be related to its whitened coordinates by the same affine map as the states the integrator produced from it (transformation-agnostic identity over the trajectory tap).",
-            "With the trajectory tap (hook H3) RefNuts recomputes, from the visited states, the U-turn criterion of the whole trajectory and of every balanced sub-trajectory in build order and therefore where the doubling had to stop: reported depth, stop reason, maxdepth flag and the accepted block must match (near-ties skipped and counted). extra_doublings>0 and target_integration_time are outside the audit.",
+            "With the trajectory tap (hook H3) RefNuts recomputes, from the visited states, the U-turn criterion of the whole trajectory and of every balanced sub-trajectory in build order and therefore where the doubling had to stop: reported depth, stop reason, maxdepth flag and the accepted block must match (near-ties skipped and counted). Whether a state is a divergence is decided by the harness from the tapped energies (error relative to the start of the trajectory above max_energy_error, or not a number) and compared with the integrator's flag; a third of the runs use a tight limit (0.05..3). extra_doublings>0 and target_integration_time are outside the audit.",
             "DESIGN.md §5 C03"),
     "C04": (ENGINE_A, "exploration",
             "seeded, exactly repeatable multi-chain simulation with default settings; between-chain t statistics against known moments; momentum observed at the delegating Math seam",
@@ -37,7 +37,7 @@ CLAIMED = {
             "DESIGN.md §5 C05, Appendix D"),
     "C06": (ENGINE_A, "exploration",
             "seeded simulation of single-chain histories (swarm configurations, density fault injection) with history oracle",
-            "Seeded search over configurations (all six presets, num_tune 0..2000 incl. every value 0..60, window fractions, step-size methods, jitter) and over acceptance/divergence histories produced by a fault-injecting density stub; the oracle reads the recorded history of each run (Progress, statistics). Evidence, not proof: a clean batch means no explored history breaks the boundary.",
+            "Seeded search over configurations (all six presets, num_tune 0..2000 incl. every value 0..60, window fractions, step-size methods, jitter; a batch of runs whose trajectories never take a leapfrog step - maxdepth 0 or a model without parameters - judged for the tuning-draw count and the frozen transformation only) and over acceptance/divergence histories produced by a fault-injecting density stub; the oracle reads the recorded history of each run (Progress, statistics). Evidence, not proof: a clean batch means no explored history breaks the boundary.",
             "Trusts the harness density stubs and the formula for the start of the final step-size window taken from the public settings; observes only the public API.",
             "DESIGN.md §5 C06"),
     "C16": (ENGINE_A, "exploration",
@@ -77,7 +77,7 @@ CLAIMED = {
             "DESIGN.md §5 C12"),
     "C13": (ENGINE_B, "fault_enumeration",
             "real Sampler under the seeded scheduler with fault injection at every fault position of each base run",
-            "For each sampled base run every fault position is injected in turn (unrecoverable/recoverable density error at every evaluation of every chain, storage record/finalize/flush/inspect/new_trace/initialize errors at every call, Model::math and init_position failures, first n / all initialisation attempts failing), each under several schedules, plus batches with 2-3 simultaneous faults; a fired fatal fault must surface as Err through wait_timeout/abort, never as panic, hang or success; recoverable faults never end a chain. The real sync and async Zarr backends are driven over a store whose k-th write fails (k over the whole run or counted back from the last write): some backend call must return Err, none may panic.",
+            "For each sampled base run (every eighth one a run of zero draws, every eighth one of a single draw) every fault position is injected in turn (unrecoverable/recoverable density error at every evaluation of every chain, storage record/finalize/flush/inspect/new_trace/initialize errors at every call, Model::math and init_position failures, first n / all initialisation attempts failing), each under several schedules, plus batches with 2-3 simultaneous faults; a fired fatal fault must surface as Err through wait_timeout/abort, never as panic, hang or success; recoverable faults never end a chain. The real sync and async Zarr backends are driven over a store whose k-th write fails (k over the whole run or counted back from the last write): some backend call must return Err, none may panic.",
             "Base runs are sampled (seeded), positions within a base run are enumerated (strided beyond 48 evaluations per chain). abort() returning Ok after a chain error is counted, not flagged.",
             "DESIGN.md §5 C13"),
     "C14": (ENGINE_C, "exploration",
